@@ -66,9 +66,7 @@ TRUSTED = ['typed leaf values are opaque atoms in the model (kind, lexical); sim
            'default convention: preserve_root=True (the root wrapper) is not modelled (such cases are skipped in the '
            'model comparison and counted); dict_class/list_class are the built-in ones; a child without a declaration '
            '(keep_unknown) is not an Item of the model',
-           'DataElementConverter: map_attribute_names=True (default) only; element_encode of something that is not a '
-           'DataElement is modelled as repaired by notes/fixes/C05-dataelement-encode-type.patch (finding C05-F11 on '
-           'the unpatched tree)']
+           'DataElementConverter: map_attribute_names=True (default) only']
 ASSUMPTIONS = ['round trip is evaluated for valid documents only (generated instances that the schema rejects are '
                'counted and skipped)',
                'for the collapsing conventions (default/BadgerFish/GData) the equality clauses are required only '
@@ -117,8 +115,7 @@ def recorder(base):
             # what `map_qname` answers in the namespace context of THIS call (the contexts of nested declarations
             # are gone when the log is read)
             try:
-                tabs = {'tag': self.map_qname(data.tag),
-                        'attrs': [[k, self.map_qname(k)] for k, _v in (data.attributes or [])]}
+                tabs = {'tag': self.map_qname(data.tag), 'attrs': attr_keys(self, data.attributes)}
             except Exception:
                 tabs = None
             LOG.append(('dec', data, xsd_element, xsd_type or xsd_element.type, level, r,
@@ -142,6 +139,22 @@ def recorder(base):
     Rec.__qualname__ = base.__qualname__
     _REC[base] = Rec
     return Rec
+
+
+def attr_keys(conv, attributes) -> list:
+    """[[extended attribute name, key without the attribute prefix]…] as `map_attributes` writes them in the
+    namespace context of the call (base.py:237-258: not always `map_qname(name)` — a namespaced attribute is
+    never written without prefix)"""
+    attributes = list(attributes or [])
+    if not attributes:
+        return []
+    pre = getattr(conv, 'attr_prefix', None)
+    if pre is None:
+        return [[k, conv.map_qname(k)] for k, _v in attributes]
+    keys = [k for k, _v in conv.map_attributes(attributes)]
+    if len(keys) != len(attributes):
+        return [[k, conv.map_qname(k)] for k, _v in attributes]
+    return [[k, mk[len(pre):]] for (k, _v), mk in zip(attributes, keys)]
 
 
 def name_candidates(obj) -> set:
@@ -187,19 +200,27 @@ def unmap_tables(conv, obj, xsd_element) -> dict:
         if special.setdefault(k, ext) != ext:
             special[k] = None               # one key, two meanings at one level
         tags.append([ext, k])
+    kids_x: list = []
     if kind == 'XMLSchemaConverter' and isinstance(obj, MutableMapping):
-        # the default convention un-maps a child key in the xmlns context of its value (base.py:477-482)
+        # the default convention un-maps the key of EACH child item with the declarations that the item carries
+        # (base.py:488-495): [extended, key, declarations] per (key, item)
         for k, v in obj.items():
             if not isinstance(k, str):
                 continue
-            try:
-                if isinstance(v, MutableSequence) and v:
-                    x = conv.get_xmlns_from_data(v[0]) if isinstance(v[0], (MutableMapping, MutableSequence)) else None
-                else:
-                    x = conv.get_xmlns_from_data(v)
-            except Exception:
-                continue
-            child(k, x)
+            if isinstance(v, MutableSequence) and v:
+                if not any(isinstance(i, (MutableMapping, MutableSequence)) for i in v):
+                    continue
+                items = list(v)
+            else:
+                items = [v]
+            for it in items:
+                try:
+                    x = conv.get_xmlns_from_data(it)
+                    e = [conv.unmap_qname(k, xmlns=x), k, [[str(p), str(u)] for p, u in (x or [])]]
+                except Exception:
+                    continue
+                if e not in kids_x:
+                    kids_x.append(e)
     own = None
     if kind == 'JsonMLConverter' and isinstance(obj, MutableSequence):
         # JsonML un-maps the name of a child with the declarations that the child carries (jsonml.py:126-131)
@@ -215,7 +236,7 @@ def unmap_tables(conv, obj, xsd_element) -> dict:
     for s in sorted(name_candidates(obj)):
         try:
             g = conv.unmap_qname(s)
-            if s not in special or kind == 'XMLSchemaConverter':
+            if s not in special:
                 tags.append([g, s])
             elif s == own and g != special[s]:
                 conflict = True             # the element's own name and a child's name: same string, other meaning
@@ -223,6 +244,8 @@ def unmap_tables(conv, obj, xsd_element) -> dict:
         except Exception:
             pass
     out = {'tags': tags, 'attrs': attrs}
+    if kids_x:
+        out['kidsX'] = kids_x
     if conflict:
         out['conflict'] = True
     # for the scoped model: the names that the call un-maps in its own context, and the children's names
@@ -718,8 +741,6 @@ LEAK_SITES = {
 }
 
 
-# C05-F11: DataElementConverter.element_encode reads `.tag` of data that is not a DataElement
-DE_LEAK_SITE = 'AttributeError:dataobjects.py:element_encode'
 
 
 def invalid_reasons(schema, xml2: str) -> Optional[set]:
@@ -814,9 +835,6 @@ def known_match(case: dict, detail: Any) -> Optional[str]:
     if 'mutation' in case and isinstance(detail, dict) and detail.get('nonstr'):
         return 'C05-F8'
     if isinstance(detail, dict) and detail.get('outcome', '').startswith('raised-leak:'):
-        if case.get('converter') == 'dataelement' and case.get('leak_site') == DE_LEAK_SITE and \
-                (case.get('mutation') or {}).get('kind') in ('de-nonelem-root', 'de-nonelem-child'):
-            return 'C05-F11'
         if case.get('leak_site') in LEAK_SITES:
             return 'C05-F3'
     if isinstance(detail, dict) and detail.get('reasons'):
@@ -1088,8 +1106,6 @@ def compare_model(ctx: Ctx, drv: Driver, u: Unit, cname: str, opts: dict, res: d
             elif ent[0] == 'encerr':
                 _, obj, xe, level, err, tabs = ent
                 cl = 'caught' if isinstance(err, (ValueError, TypeError)) else 'leak'
-                if cl == 'leak' and cname == 'dataelement' and leak_site(err) == DE_LEAK_SITE:
-                    cl = 'leak:F11'     # the model describes the repaired behaviour (XMLSchemaTypeError)
                 reqs.append(dict(base, op='enc1', mapper=tabs, ty=facts_of(table, xe), name=xe.name, obj=L.canon(obj)))
                 meta.append(('enc1', cse, {'error': cl}))
     answers = drv.query(reqs)
@@ -1115,9 +1131,7 @@ def compare_model(ctx: Ctx, drv: Driver, u: Unit, cname: str, opts: dict, res: d
             got = ans['enc']
             if 'error' in got and got['error'] in ('nochild',):
                 got = {'error': 'caught'}
-            if want == {'error': 'leak:F11'} and got == {'error': 'caught'}:
-                ctx.known_hit('C05-F11')
-            elif got != want:
+            if got != want:
                 ctx.mismatch(f'{cname}: element_encode', dict(small, obj=None), want, got)
             ctx.count(f'enc1/{cname}:' + ('ok' if 'ok' in want else want['error']))
 
@@ -1441,7 +1455,7 @@ def direct_encode(cname: str, opts: dict, obj):
     except (ValueError, TypeError):
         want = {'error': 'caught'}
     except Exception as e:  # noqa
-        want = {'error': 'leak:F11' if cname == 'dataelement' and leak_site(e) == DE_LEAK_SITE else 'leak'}
+        want = {'error': 'leak'}
     req = {'conv': cname, 'useNs': use_ns, 'sch': table.facts, 'opts': opts, 'op': 'enc1', 'ty': ty, 'name': 'root',
            'mapper': unmap_tables(conv, obj, root), 'obj': L.canon(obj)}
     return req, want, keys
@@ -1546,10 +1560,6 @@ def direct_cases(ctx: Ctx, drv: Optional[Driver], n: int) -> None:
             ctx.mismatch(f'direct {kind}: driver error', case, want, ans)
             continue
         got = ans['v'] if kind == 'dec1' else ans['enc']
-        if kind == 'enc1' and want == {'error': 'leak:F11'} and got == {'error': 'caught'}:
-            ctx.known_hit('C05-F11')
-            ctx.count('direct-enc1:leak:F11')
-            continue
         if kind == 'enc1' and 'error' in got and got['error'] == 'nochild':
             got = {'error': 'caught'}
         if got != want:
@@ -1615,6 +1625,8 @@ def branches(u: Unit) -> list[str]:
         b.append('repeated')
     if u.inner_xmlns:
         b.append('inner-xmlns')
+    if any(len({k.split('}')[-1] for k in e.attrib}) < len(e.attrib) for e in r.iter()):
+        b.append('attr-twin')       # one local name, once in the target namespace and once in no namespace
     return b
 
 
